@@ -150,6 +150,18 @@ func c16HasLayouts(remote []c16Codec) bool {
 	return prim && rep
 }
 
+// c16DistinctPrimaries counts the video primaries of a remote list that differ in name.
+func c16DistinctPrimaries(remote []c16Codec) int {
+	seen := map[string]bool{}
+	for _, r := range remote {
+		if r.Kind == "video" && !c16IsRepair(r.Name) {
+			seen[strings.ToLower(r.Name)] = true
+		}
+	}
+
+	return len(seen)
+}
+
 func c16OfferLayout(remote []c16Codec, layout string) string {
 	var secs []vScanOfferSection
 	section := func(kind string, primariesOnly bool) {
@@ -179,8 +191,31 @@ func c16OfferLayout(remote []c16Codec, layout string) string {
 			secs = append(secs, s)
 		}
 	}
+	rotated := func() {
+		// the primaries of the video list again with their payload type numbers ROTATED among them: every
+		// number is one the first section uses, for another codec (needs two primaries to differ)
+		s := vScanOfferSection{Media: "video", Dir: "sendrecv"}
+		var prim []c16Codec
+		for _, r := range remote {
+			if r.Kind == "video" && !c16IsRepair(r.Name) {
+				prim = append(prim, r)
+			}
+		}
+		for i, r := range prim {
+			s.Codecs = append(s.Codecs, vScanOfferCodec{PT: prim[(i+1)%len(prim)].PT, Name: r.Name, Clock: r.Clock, Ch: r.Ch, Fmtp: r.Fmtp, FB: r.FB})
+		}
+		if len(s.Codecs) > 0 {
+			s.Mid = fmt.Sprintf("%d", len(secs))
+			secs = append(secs, s)
+		}
+	}
 	section("audio", false)
 	switch layout {
+	case "v+vx":
+		section("video", false)
+		rotated()
+	case "vx":
+		rotated()
 	case "v+vr":
 		section("video", false)
 		renumbered()
@@ -444,6 +479,27 @@ func c16Run(t *testing.T, c *vkit.Check, memo map[string]bool, cs c16Case, offer
 		}
 		outcome("reoffer-answered")
 		c16Oracle(c, memo, cs, reoffer, answer2.SDP, "|reoffer")
+		// third round: a re-offer of the FULL list whose video primaries have exchanged their numbers
+		if c16DistinctPrimaries(remote) < 2 || pc.SetLocalDescription(answer2) != nil {
+			return
+		}
+		rot := c16OfferLayout(remote, "vx")
+		if len(vScanSDP(rot).Sections) != len(vScanSDP(offer).Sections) {
+			return
+		}
+		if err := pc.SetRemoteDescription(SessionDescription{Type: SDPTypeOffer, SDP: rot}); err != nil {
+			outcome("rotated-reoffer-set-remote-error")
+
+			return
+		}
+		answer3, err := pc.CreateAnswer(nil)
+		if err != nil {
+			outcome("rotated-reoffer-create-answer-error")
+
+			return
+		}
+		outcome("rotated-reoffer-answered")
+		c16Oracle(c, memo, cs, rot, answer3.SDP, "|rotated-reoffer")
 	})
 }
 
@@ -565,6 +621,15 @@ func TestVerifC16(t *testing.T) {
 				}
 				for _, v := range []string{"remote-first", "transceiver"} {
 					c16Run(t, c, memo, c16Case{Local: e.local, RTX: e.rtx, Seq: seq, Variant: v, Layout: lay}, c16OfferLayout(remote, lay))
+					n++
+				}
+			}
+			// a second video section (and, below, a re-offer) that uses the first section's numbers for OTHER
+			// codecs: pion refuses such offers; if it ever answers one, every number has to name what the section
+			// it answers offers under it
+			if nprim := c16DistinctPrimaries(remote); nprim >= 2 {
+				for _, v := range []string{"remote-first", "transceiver"} {
+					c16Run(t, c, memo, c16Case{Local: e.local, RTX: e.rtx, Seq: seq, Variant: v, Layout: "v+vx"}, c16OfferLayout(remote, "v+vx"))
 					n++
 				}
 			}
